@@ -508,7 +508,20 @@ class Content(object):
         return r["text"]
 
     # ---- operations (C++)
+    def _view_range(self, start, stop):
+        """what Content::getitem_range_nowrap returns for the buffer-sharing node classes: a node of the same class whose
+        indexes are VIEWS of this node's buffers (no copy).  None: no Python-side view for this class (the C++ result is
+        marshalled, i.e. copied).  Aliasing matters: the Python layer may write into what bytemask()/mask/index hand out."""
+        return None
+
     def __getitem__(self, where):
+        if isinstance(where, slice) and where.step in (None, 1) and self._length() >= 0:
+            n = self._length()
+            start, stop, _ = where.indices(n)
+            stop = max(stop, start)
+            v = self._view_range(start, stop)
+            if v is not None:
+                return v
         return self._call("getitem", slice=_slice(where), pydispatch=1)
 
     def getitem_nothing(self):
@@ -680,6 +693,9 @@ class NumpyArray(Content):
             return -1
         return self._a.shape[0]
 
+    def _view_range(self, start, stop):
+        return NumpyArray(self._a[start:stop], None, dict(self._parameters))
+
     def __array__(self, *args, **kwargs):
         return self._a
 
@@ -816,6 +832,9 @@ def _mk_listoffset(w):
         def _length(self):
             return len(self._offsets) - 1
 
+        def _view_range(self, start, stop):
+            return type(self)(_IDX[w](self._offsets._a[start:stop + 1]), self._content, None, dict(self._parameters))
+
         @property
         def offsets(self):
             return self._offsets
@@ -913,6 +932,9 @@ def _mk_indexed(w, opt):
         def _length(self):
             return len(self._index)
 
+        def _view_range(self, start, stop):
+            return type(self)(_IDX[w](self._index._a[start:stop]), self._content, None, dict(self._parameters))
+
         @property
         def index(self):
             return self._index
@@ -950,6 +972,9 @@ class ByteMaskedArray(_OptionLike):
     def _length(self):
         return len(self._mask)
 
+    def _view_range(self, start, stop):
+        return ByteMaskedArray(Index8(self._mask._a[start:stop]), self._content[start:stop], self._vw, None, dict(self._parameters))
+
     @property
     def mask(self):
         return self._mask
@@ -960,6 +985,12 @@ class ByteMaskedArray(_OptionLike):
 
     def toIndexedOptionArray64(self):
         return self._call("toIndexedOptionArray64")
+
+    def bytemask(self):
+        # as ByteMaskedArray::bytemask(): with valid_when == false the mask ITSELF is returned (same buffer, no copy)
+        if not self._vw:
+            return self._mask
+        return _OptionLike.bytemask(self)
 
 
 class BitMaskedArray(_OptionLike):
